@@ -349,6 +349,91 @@ func genSchemaText(r *rng, names, enums []string) string {
 	return g.value("")
 }
 
+// ---- recombination of harvested texts ------------------------------------------
+// The harvested JSight texts use every rule of the language; the grammar above
+// uses a fraction. Line-level recombination (JSight annotations are per line) gives
+// inputs neither has: a repeated line, swapped lines, an annotation moved from one
+// text to a line of another, a literal replaced. Most results are rejected, which
+// is the point as often as not: which of several problems is reported first, and
+// what a failing load leaves behind.
+
+var annRe = regexp.MustCompile(` // \{.*\}\s*$`)
+
+var harvestedAnns []string
+
+func harvestAnns() {
+	if harvestedAnns != nil {
+		return
+	}
+	seen := map[string]bool{}
+	for _, l := range [][]string{corpus.JValid, corpus.JRefs, corpus.JInvalid} {
+		for _, t := range l {
+			for _, line := range strings.Split(t, "\n") {
+				if m := annRe.FindString(line); m != "" && len(m) < 120 && !seen[m] {
+					seen[m] = true
+					harvestedAnns = append(harvestedAnns, strings.TrimRight(m, " \t\r"))
+				}
+			}
+		}
+	}
+	if len(harvestedAnns) == 0 {
+		harvestedAnns = []string{` // {optional: true}`}
+	}
+}
+
+func mutateText(r *rng, t string) string {
+	harvestAnns()
+	lines := strings.Split(t, "\n")
+	for k := 1 + r.n(2); k > 0; k-- {
+		i := r.n(len(lines))
+		switch r.n(6) {
+		case 0: // the same line again (keeps a comma discipline only by luck)
+			dup := lines[i]
+			if !strings.HasSuffix(strings.TrimSpace(annRe.ReplaceAllString(dup, "")), ",") && i+1 < len(lines) {
+				lines[i] = annRe.ReplaceAllString(dup, "") + "," + annRe.FindString(dup)
+			}
+			lines = append(lines[:i+1], append([]string{dup}, lines[i+1:]...)...)
+		case 1: // swap two lines
+			j := r.n(len(lines))
+			lines[i], lines[j] = lines[j], lines[i]
+		case 2, 3: // an annotation from elsewhere
+			a := harvestedAnns[r.n(len(harvestedAnns))]
+			if annRe.MatchString(lines[i]) {
+				lines[i] = annRe.ReplaceAllString(lines[i], a)
+			} else if strings.TrimSpace(lines[i]) != "" {
+				lines[i] = strings.TrimRight(lines[i], " \t\r") + a
+			}
+		case 4: // another literal
+			lit := r.pick([]string{`"abc"`, `1`, `-1`, `1.5`, `true`, `null`, `"2021-01-02"`, `"a@b.cc"`, `@a`, `@a | @b`, `[]`, `{}`, `""`, `0`})
+			for _, re := range []string{`"[^"]*"(\s*,?\s*)$`, `\b\d+(\.\d+)?(\s*,?\s*)$`, `\b(true|false|null)(\s*,?\s*)$`} {
+				body := annRe.ReplaceAllString(lines[i], "")
+				rx := regexp.MustCompile(re)
+				if loc := rx.FindStringIndex(body); loc != nil && strings.Contains(body, ":") {
+					tail := ""
+					if strings.HasSuffix(strings.TrimSpace(body), ",") {
+						tail = ","
+					}
+					lines[i] = body[:loc[0]] + lit + tail + annRe.FindString(lines[i])
+					break
+				}
+			}
+		default: // drop a line
+			if len(lines) > 1 {
+				lines = append(lines[:i], lines[i+1:]...)
+			}
+		}
+	}
+	return strings.Join(lines, "\n")
+}
+
+func pickJ(r *rng, l []string) string {
+	t := r.pick(l)
+	if r.pct(25) {
+		t = mutateText(r, t)
+	}
+	return t
+}
+
 // ---- torn inputs (F-torn) ----------------------------------------------------
 
 func tear(r *rng, s string) (string, string) {
@@ -382,11 +467,11 @@ var namePool = []string{"@a", "@b", "@c", "@d", "@e1"}
 func genTypeText(r *rng, names, enums []string) (kind, text string) {
 	switch c := r.n(100); {
 	case c < 40:
-		return "j", r.pick(corpus.JValid)
+		return "j", pickJ(r, corpus.JValid)
 	case c < 72:
 		return "j", genSchemaText(r, names, enums)
 	case c < 80:
-		return "j", r.pick(corpus.JRefs)
+		return "j", pickJ(r, corpus.JRefs)
 	case c < 90:
 		return "j", r.pick(corpus.JInvalid) // a broken type
 	default:
